@@ -15,7 +15,8 @@ Import ListNotations.
 Inductive fn :=
   | FCross | FDot | FVDot | FNorm | FVNorm | FDistance | FNormalized | FDet2 | FDet3 | FCotan | FAngle3
   | FSAngle2 | FSAngle3 | FAngle2D | FAngle3D | FCircum | FFaceBasis | FLine2 | FPlane | FTriArea | FTriArea2D
-  | FRot2D | FRotAxis | FRot2D2 | FRotAxis2 | FSign0 | FSign | FPrincipal | FAngleDiff | FRoots.
+  | FRot2D | FRotAxis | FRot2D2 | FRotAxis2 | FSign0 | FSign | FPrincipal | FAngleDiff | FRoots
+  | FQuadArea | FAspect | FDistSeg | FSolveQuad | FOuter | FAxisRotZ.
 
 Inductive op :=
   | OArr (s : Z) (v : list Q)
@@ -33,7 +34,12 @@ Inductive op :=
   | OIsEmpty (b : Z)
   | OSpan (b : Z)
   | OCenter (b : Z)
-  | OFn (f : fn) (args : list Z) (k : nkind) (sc : list Q) (fl : list float).
+  | OUnitCube (nb : Z) (dim : Z) (centered : bool)
+  | OInfinite (nb : Z) (dim : Z)                 (* corners at infinity: outside the field model, only observed *)
+  | OOfMesh (nb : Z) (ss : list Z) (pad : Q)
+  | ONormalize (s : Z) (k : nkind) (after : list Q)   (* Vec.normalize, in place; `after` = the contents observed afterwards *)
+  | OFn (f : fn) (args : list Z) (k : nkind) (sc : list Q) (fl : list float) (cx : list bool).
+      (* cx: which arguments are passed as complex numbers (2-D primitives) *)
       (* sc: exact scalar arguments; fl: what the numerical shell computed on the Python side
          (cos/sin of the angle argument, or cmath.polar's angle) *)
 
@@ -140,8 +146,9 @@ Definition QO := Qops.
 Definition FO := Fops.
 
 (* one primitive on caller arrays *)
-Definition run_fn (f : fn) (a : list (list Q)) (k : nkind) (sc : list Q) (fl : list float) : mres :=
+Definition run_fn (f : fn) (a : list (list Q)) (k : nkind) (sc : list Q) (fl : list float) (cx : list bool) : mres :=
   let af := map vq2f a in
+  let P2 i := if nth i cx false then ACplx (nth 0 (nth i a []) 0%Q) (nth 1 (nth i a []) 0%Q) else AVec (nth i a []) in
   let A i := nth i a [] in
   let F i := nth i af [] in
   let S i := nth i sc 0%Q in
@@ -166,7 +173,7 @@ Definition run_fn (f : fn) (a : list (list Q)) (k : nkind) (sc : list Q) (fl : l
       | _ => of_res MQ (g_distance Q QO (A 0%nat) (A 1%nat) k)
       end
   | FNormalized => of_res MVF (vec_normalized float FO (F 0%nat) k)
-  | FDet2 => MQ (g_det_2x2 Q QO (A 0%nat) (A 1%nat))
+  | FDet2 => of_res MQ (g_det_2x2_any Q QO (P2 0%nat) (P2 1%nat))
   | FDet3 => MQ (g_det_3x3 Q QO (A 0%nat) (A 1%nat) (A 2%nat))
   | FCotan => of_res MF (g_cotan float FO (F 0%nat) (F 1%nat) (F 2%nat))
   | FAngle3 => let p := g_angle_3pts float FO (F 0%nat) (F 1%nat) (F 2%nat) in MAng (fst p) (snd p)
@@ -201,6 +208,12 @@ Definition run_fn (f : fn) (a : list (list Q)) (k : nkind) (sc : list Q) (fl : l
   | FSign => MQ (g_sign Q QO (S 0%nat))
   | FPrincipal => MPer (m_principal_angle float FO (q2f (S 0%nat)))
   | FAngleDiff => MPer (m_angle_diff float FO (q2f (S 0%nat)) (q2f (S 1%nat)))
+  | FQuadArea => MF (g_quad_area float FO (F 0%nat) (F 1%nat) (F 2%nat) (F 3%nat))
+  | FAspect => of_res MF (g_aspect_ratio float FO (F 0%nat) (F 1%nat) (F 2%nat))
+  | FDistSeg => of_res MF (g_distance_to_segment2D float FO (F 0%nat) (F 1%nat) (F 2%nat))
+  | FSolveQuad => MVF (m_solve_quadratic float FO (q2f (S 0%nat)) (q2f (S 1%nat)) (q2f (S 2%nat)))
+  | FOuter => MVsF (vec_outer float FO (F 0%nat) (F 1%nat))
+  | FAxisRotZ => MNone          (* uses the numerical value of atan2: observed and judged by the oracle only *)
   | FRoots =>
       (* sc = [re; im; n], fl = [t] with (r, t) = cmath.polar(c) *)
       let n := Qnum (S 2%nat) in
@@ -208,23 +221,23 @@ Definition run_fn (f : fn) (a : list (list Q)) (k : nkind) (sc : list Q) (fl : l
   end.
 
 (* one call: model answer, new state (boxes created / padded) *)
-Definition step (st : state) (o : op) : mres * state * list (Z * (list Q * list Q)) :=
+Definition step (st : state) (o : op) : mres * state * list (Z * (list Q * list Q)) * Z :=
   let A s := lookup s (arrs st) in
   let B b := lookup b (boxes st) in
-  let keep m := (m, st, []) in
+  let keep m := (m, st, [], 0%Z) in
   let newbox nb r :=
     match r with
-    | Ret bx => (MBoxQ bx, mkst (arrs st) ((nb, bx) :: boxes st), [])
-    | Raise e => (MExc e, st, [])
+    | Ret bx => (MBoxQ bx, mkst (arrs st) ((nb, bx) :: boxes st), [], 0%Z)
+    | Raise e => (MExc e, st, [], 0%Z)
     end in
   let padded b old r :=
     match r with
     | Ret bx => (MNone, mkst (arrs st) ((b, bx) :: boxes st),
-                 if vq_eqb (fst old) (fst bx) && vq_eqb (snd old) (snd bx) then [] else [(b, bx)])
-    | Raise e => (MExc e, st, [])
+                 if vq_eqb (fst old) (fst bx) && vq_eqb (snd old) (snd bx) then [] else [(b, bx)], 0%Z)
+    | Raise e => (MExc e, st, [], 0%Z)
     end in
   match o with
-  | OArr s v => (MNone, mkst ((s, v) :: arrs st) (boxes st), [])
+  | OArr s v => (MNone, mkst ((s, v) :: arrs st) (boxes st), [], 0%Z)
   | OSetErr => keep MNone
   | OBox nb sa sb =>
       match A sa, A sb with
@@ -255,9 +268,22 @@ Definition step (st : state) (o : op) : mres * state * list (Z * (list Q * list 
   | OIsEmpty b => match B b with Some x => keep (MB (aabb_is_empty Q QO x)) | None => keep MBad end
   | OSpan b => match B b with Some x => keep (MVQ (aabb_span Q QO x)) | None => keep MBad end
   | OCenter b => match B b with Some x => keep (MVQ (aabb_center Q QO x)) | None => keep MBad end
-  | OFn f args k sc fl =>
+  | OUnitCube nb dim c => newbox nb (aabb_unit_cube Q QO (Z.to_nat dim) c)
+  | OInfinite nb dim => keep MNone
+  | OOfMesh nb ss pad =>
+      match all_some (map A ss) with
+      | Some pts => newbox nb (aabb_of_mesh Q QO pts pad)
+      | None => keep MBad
+      end
+  | ONormalize s k after =>
+      match A s with
+      | Some v => (MVF (vec_normalize float FO (vq2f v) k), mkst ((s, after) :: arrs st) (boxes st), [],
+                   if vq_eqb v after then 0%Z else 1%Z)
+      | None => keep MBad
+      end
+  | OFn f args k sc fl cx =>
       match all_some (map A args) with
-      | Some a => keep (run_fn f a k sc fl)
+      | Some a => keep (run_fn f a k sc fl cx)
       | None => keep MBad
       end
   end.
@@ -271,8 +297,8 @@ Fixpoint run (st : state) (p : list (op * obs)) : bool :=
   match p with
   | [] => true
   | (o, w) :: t =>
-      let '(m, st', chg) := step st o in
-      agree m (o_r w) && o_err_same w && Z.eqb (o_arrchg w) 0 && Z.eqb (o_alias w) 0
+      let '(m, st', chg, nchg) := step st o in
+      agree m (o_r w) && o_err_same w && Z.eqb (o_arrchg w) nchg && Z.eqb (o_alias w) 0
       && boxchg_eqb chg (o_boxchg w) && run st' t
   end.
 
@@ -283,12 +309,12 @@ Fixpoint run_flags (st : state) (p : list (op * obs)) : list bool :=
   match p with
   | [] => []
   | (o, w) :: t =>
-      let '(m, st', chg) := step st o in
-      (agree m (o_r w) && o_err_same w && Z.eqb (o_arrchg w) 0 && Z.eqb (o_alias w) 0
+      let '(m, st', chg, nchg) := step st o in
+      (agree m (o_r w) && o_err_same w && Z.eqb (o_arrchg w) nchg && Z.eqb (o_alias w) 0
        && boxchg_eqb chg (o_boxchg w)) :: run_flags st' t
   end.
 Fixpoint run_answers (st : state) (p : list (op * obs)) : list mres :=
   match p with
   | [] => []
-  | (o, w) :: t => let '(m, st', chg) := step st o in m :: run_answers st' t
+  | (o, w) :: t => let '(m, st', chg, nchg) := step st o in m :: run_answers st' t
   end.
